@@ -23,11 +23,21 @@
             ve: the run ended with ValueError)
     spec_eval <locktime> <sequence> <version> <cmds>
          -> `ACCEPT|REJECT|OVERSIZE|UNSUPPORTED`
+    tl_loc <int>      Locktime(n): `REJECT` | `<ser> h=<block_height|NONE> m=<mtp|NONE>`
+    tl_seq <int>      Sequence(n): `REJECT` | `<ser> rbf=<0|1> max=<0|1> rel=<0|1> relt=<0|1> relb=<0|1>
+                                              blocks=<n|NONE> time=<n|NONE>`
+    tl_lpair <a> <b>  two Locktime objects: `cmp=<0|1> lt=<0|1|RAISE>`
+    tl_spair <a> <b>  two Sequence objects: `cmp=<0|1> lt=<0|1|RAISE>`
+    tl_frt <int>      Sequence.from_relative_time   -> value | REJECT
+    tl_frb <int>      Sequence.from_relative_blocks -> value | REJECT
+    tl_lparse <bytes> Locktime.parse on a stream    -> `<value> <rest>` | REJECT
+    tl_sparse <bytes> Sequence.parse on a stream    -> `<value> <rest>` | REJECT
   <cfg> is `r` (repaired: every C07 and C06 patch applied), `p` (C07 patches only: /repo at a5beaa1)
   or `a` (before the C07 patches).
 -/
 import Buidl.Drv.Proto
 import Buidl.Model.Interp
+import Buidl.Model.Timelock
 import Buidl.Spec.Consensus
 import Buidl.Model.Hash.Basic
 open Buidl Buidl.Proto Buidl.Script
@@ -71,7 +81,54 @@ def fmtStack (s : List Bytes) : String := fmtBytesList s.reverse
 
 def fuelFor (cmds : List Cmd) : Nat := 100000 + 64 * cmds.length
 
+def fmtON : Option Nat → String
+  | some n => toString n
+  | none => "NONE"
+
+def fmtLt : Option Bool → String
+  | some b => fmtBool b
+  | none => "RAISE"
+
 def handle : List String → String
+  | ["tl_loc", n] => optS do
+      match Timelock.locktimeNew (← parseInt n) with
+      | none => pure REJECT
+      | some v =>
+        let ser ← Timelock.locktimeSerialize v
+        pure s!"{fmtBytes ser} h={fmtON (Timelock.blockHeight v)} m={fmtON (Timelock.mtp v)}"
+  | ["tl_seq", n] => optS do
+      match Timelock.sequenceNew (← parseInt n) with
+      | none => pure REJECT
+      | some v =>
+        let ser ← Timelock.sequenceSerialize v
+        pure (s!"{fmtBytes ser} rbf={fmtBool (Timelock.isRbfAble v)} max={fmtBool (Timelock.isMax v)} " ++
+          s!"rel={fmtBool (Timelock.isRelative v)} relt={fmtBool (Timelock.isRelativeTime v)} " ++
+          s!"relb={fmtBool (Timelock.isRelativeBlock v)} blocks={fmtON (Timelock.relativeBlocks v)} " ++
+          s!"time={fmtON (Timelock.relativeTime v)}")
+  | ["tl_lpair", a, b] => optS do
+      let a ← Timelock.locktimeNew (← parseInt a)
+      let b ← Timelock.locktimeNew (← parseInt b)
+      pure s!"cmp={fmtBool (Timelock.locktimeComparable a b)} lt={fmtLt (Timelock.locktimeLt a b)}"
+  | ["tl_spair", a, b] => optS do
+      let a ← Timelock.sequenceNew (← parseInt a)
+      let b ← Timelock.sequenceNew (← parseInt b)
+      pure s!"cmp={fmtBool (Timelock.sequenceComparable a b)} lt={fmtLt (Timelock.sequenceLt a b)}"
+  | ["tl_frt", n] => optS do
+      match Timelock.fromRelativeTime (← parseInt n) with
+      | some v => pure (toString v)
+      | none => pure REJECT
+  | ["tl_frb", n] => optS do
+      match Timelock.fromRelativeBlocks (← parseInt n) with
+      | some v => pure (toString v)
+      | none => pure REJECT
+  | ["tl_lparse", b] => optS do
+      match Timelock.locktimeParse (← parseBytes b) with
+      | some (v, rest) => pure s!"{v} {fmtBytes rest}"
+      | none => pure REJECT
+  | ["tl_sparse", b] => optS do
+      match Timelock.sequenceParse (← parseBytes b) with
+      | some (v, rest) => pure s!"{v} {fmtBytes rest}"
+      | none => pure REJECT
   | ["encnum", n] => optS do pure (fmtBytes (Interp.encodeNum (← parseInt n)))
   | ["decnum", b] => optS do pure (fmtInt (Interp.decodeNum (← parseBytes b)))
   | ["spec_ser", n] => optS do pure (fmtBytes (Spec.Consensus.serialize (← parseInt n)))
